@@ -248,6 +248,7 @@ func tsValues(set func(c *configpb.LogConfig, t *truth, ts *timestamppb.Timestam
 		mk("t1", false, timestamppb.New(pki.T1), true),
 		mk("epoch", true, &timestamppb.Timestamp{}, true), // present but empty message
 		mk("max", false, &timestamppb.Timestamp{Seconds: 253402300799, Nanos: 999999999}, true),
+		mk("min", false, &timestamppb.Timestamp{Seconds: -62135596800}, true), // 0001-01-01T00:00:00Z: the smallest valid Timestamp, and Go's zero time.Time
 		mk("sec-too-big", false, &timestamppb.Timestamp{Seconds: 253402300800}, false),
 		mk("sec-too-small", true, &timestamppb.Timestamp{Seconds: -62135596801}, false),
 		mk("nanos-negative", false, &timestamppb.Timestamp{Seconds: pki.T0.Unix(), Nanos: -1}, false),
